@@ -105,13 +105,43 @@ pub fn gen_session(rng: &mut Rng, o: &SessionOpts) -> Scenario {
     let games = 1 + rng.below(o.max_games);
     let mut n_go = 0usize;
     let pipelined = o.faulty && rng.chance(1, 6);
+    let mut previous: Option<(Pos, Vec<Mv>)> = None;
     for _ in 0..games {
-        if rng.chance(2, 3) {
+        // a move taken back, or the same game continued: the next position command names the
+        // previous start with a shorter or longer version of its move list, no ucinewgame between
+        let related = match &previous {
+            Some((s, ms)) if !ms.is_empty() && rng.chance(1, 5) => {
+                let k = rng.below(ms.len() as u64) as usize;
+                let mut p = s.clone();
+                for m in &ms[..k] {
+                    p = p.apply(*m);
+                }
+                let mut out = ms[..k].to_vec();
+                if rng.chance(1, 3) {
+                    let n_ext = 1 + rng.below(3) as usize;
+                    let ext = workload::random_walk(rng, &p, n_ext, workload::Bias::Tactical);
+                    out.extend(ext);
+                }
+                Some((s.clone(), out))
+            }
+            _ => None,
+        };
+        if related.is_none() && rng.chance(2, 3) {
             sc.line("ucinewgame");
         }
         let terminal_game = o.terminal && rng.chance(1, 3);
         let mut shuffle_game = false;
-        let (start, moves) = if terminal_game {
+        let (start, moves) = if let Some((s, ms)) = related {
+            let mut p = s.clone();
+            for m in &ms {
+                p = p.apply(*m);
+            }
+            if p.is_terminal() && !o.terminal {
+                (s, vec![])
+            } else {
+                (s, ms)
+            }
+        } else if terminal_game {
             if rng.chance(1, 2) {
                 (Pos::from_fen(*rng.pick(TERMINAL_FENS)).unwrap(), vec![])
             } else {
@@ -151,6 +181,7 @@ pub fn gen_session(rng: &mut Rng, o: &SessionOpts) -> Scenario {
         if !first_game_without_position {
             let pl = sa::position_line(&start, &moves, rng);
             sc.line(&pl);
+            previous = Some((start.clone(), moves.clone()));
         }
         let gos = 1 + rng.below(if o.timed { 3 } else { 4 });
         let mut white = p.white_to_move;
@@ -723,7 +754,8 @@ pub fn run_c10_draw_session(seed: u64, run: u64) -> Acc {
     let mut acc = Acc::new();
     let z = crate::zobrist::ZobristHasher::create_zobrist_hasher();
     let want = *rng.pick(&[2u32, 2, 3]);
-    let game = match crate::sb_checks::gen_repetition_root(&mut rng, want, &z) {
+    let forced = rng.chance(1, 4);
+    let game = match if forced { crate::sb_checks::forced_repetition_game(&mut rng, want) } else { crate::sb_checks::gen_repetition_root(&mut rng, want, &z) } {
         Some(g) => g,
         None => return acc,
     };
